@@ -29,12 +29,16 @@ from .. import common as C
 from . import _an
 
 PROP = "C13"
-GEN_REGIONS = ["Ctor", "Attrs"]
+GEN_REGIONS = ["Ctor", "Attrs", "KernelHeap"]
 THEOREMS = {
     "SpecKitV.Lemmas.AnalyzerGlue": ["Model.channelOf_transpose", "Model.sanitise_idem", "Model.sanitise_eq_zero_fill",
                                      "Model.ctor_copy_no_foreign_write", "Model.ctor_copy_no_write", "Model.ctor_inplace_writes_caller",
                                      "Model.ctor_inplace_spares_copied", "Model.heapRun_written_ge"],
     "SpecKitV.Props.C13": ["ctor_ops_copying", "ctor_writes_nothing", "ctor_written_ge", "ctor_result_fresh", "inplace_would_write_fortran_Nx2"],
+    # buffer operations of the six NumPy fallback kernels (+ _gather_segments inlined), regenerated from core.py each run: no execution writes a
+    # buffer the kernel was handed (simulation concrete <= may-alias abstraction, then evaluation of the generated op lists)
+    "SpecKitV.Props.KernelHeapGen": ["cRun_sub_aRun", "np_kernels_abstract_clean", "np_kernels_write_no_caller_buffer", "view_gather_would_write",
+                                     "np_kernels_do_write"],
     # C13FINITE-PLACEHOLDER (filled in below when SpecKitV/Props/C13Finite.lean exists; see FINITE_THEOREMS)
 }
 # Props/C13Finite.lean (attribute table instantiated at strict partial reals) is written by another task. The theorems it is planned
@@ -63,7 +67,10 @@ if _ft:
 CONTRACTS = ["NumPy aliasing rules assumed by Model.heapStep: np.asarray returns an ndarray argument itself and allocates for any other container; "
              ".T is a view; np.ascontiguousarray(a, dtype=float64) returns `a` iff it is C-contiguous float64 and allocates otherwise; "
              "np.nan_to_num(copy=False) writes its argument's buffer, copy=True allocates (validated each run against np.shares_memory)",
-             "fancy indexing x[idx] (core._gather_segments) returns a copy, so the NumPy backend's in-place detrending cannot reach the record"]
+             "fancy indexing x[idx] (core._gather_segments) returns a copy, so the NumPy backend's in-place detrending cannot reach the record",
+             "NumPy aliasing rules assumed by Model.KOp (Model/KHeap.lean; validated each run with np.shares_memory): advanced indexing copies; basic "
+             "indexing, .T, .real, .imag, reshape are views; `a op= b` and `a[...] = b` write a's buffer; np.nan_to_num(copy=False) returns its "
+             "argument after sanitising it in place; arithmetic, reductions, np.empty/exp/arange allocate; np.asarray may return its argument"]
 ASSUMPTIONS = ["finiteness (sub-claim d) is demanded for records whose amplitude a satisfies 1e-65 <= a <= 1e60 or whose squares underflow to exactly "
                "zero (a = 1e-300): outside, IEEE overflow/underflow of XX*YY and |XY|^2 is outside the model (DESIGN §4 C13-d). Observed on the real "
                "code and reported as a note each run: amplitudes in about [1e-160, 1e-85] give NaN coherence (XX*YY underflows to 0 behind a guard "
@@ -929,12 +936,83 @@ def heap_correspondence(ctx, P: C.Part) -> None:
                                             "although the model says each is fresh (or vice versa)", "shares_caller": shares})
 
 
+def kheap_correspondence(ctx, P: C.Part) -> None:
+    """(i) every aliasing rule of Model.KOp against NumPy itself (np.shares_memory / identity / bytes), on arrays of several dtypes and layouts;
+    (ii) the six real NumPy kernels on records with non-zero segment means, unsorted/repeated/back-to-back starts and K = 1: every array handed to
+    the kernel (record(s), starts, window, basis) is byte-identical afterwards — the concrete statement np_kernels_write_no_caller_buffer is about."""
+    from speckit import core as K
+    rng = np.random.default_rng(int(ctx.rng.integers(0, 2 ** 62)))
+    def rule(name, ok):
+        P.cases += 1
+        P.hit("kheap_rule_" + name)
+        if not ok:
+            P.disagreements.append({"op": "kheap-rule", "rule": name, "error": "NumPy does not follow the aliasing rule assumed by Model.KOp"})
+    for dt in (np.float64, np.float32, np.int64):
+        for N in (7, 64):
+            a = (rng.standard_normal(N) * 5).astype(dt)
+            idx = np.array([0, 2, 2, 5])
+            rule("fancy_copies", not np.shares_memory(a[idx], a))
+            rule("fancy2d_copies", not np.shares_memory(a[idx[:, None] + np.arange(2)[None, :]], a))
+            rule("boolmask_copies", not np.shares_memory(a[a > 0], a) or not (a > 0).any())
+            rule("basic_views", np.shares_memory(a[1:5], a) and np.shares_memory(a[1:5][None, :], a) and np.shares_memory(a[::2], a))
+            rule("T_real_imag_reshape_view", np.shares_memory(a.reshape(1, -1).T, a) and np.shares_memory(a.real, a)
+                 and np.shares_memory((a.astype(complex)).imag, a) is False)
+            b = a.copy()
+            r = np.nan_to_num(b, copy=False)
+            rule("nan_to_num_inplace_returns_arg", r is b or np.shares_memory(r, b))
+            rule("nan_to_num_copy_allocates", not np.shares_memory(np.nan_to_num(b, copy=True), b) and not np.shares_memory(np.nan_to_num(b), b))
+            c = a.copy(); v = c[1:4]; before = c.copy(); v -= 1
+            rule("augassign_writes_view_base", not np.array_equal(before, c) and np.array_equal(before[4:], c[4:]))
+            rule("arith_allocates", not np.shares_memory(a * 2, a) and not np.shares_memory(a - a.mean(), a) and not np.shares_memory(np.exp(a.astype(float)), a))
+            same = np.asarray(a, dtype=np.float64, order="C")
+            rule("asarray_alias_iff_same_dtype", (same is a or np.shares_memory(same, a)) == (dt is np.float64))
+    names = [("_stats_win_only_auto_np", False, False), ("_stats_win_only_csd_np", True, False), ("_stats_detrend0_auto_np", False, False),
+             ("_stats_detrend0_csd_np", True, False), ("_stats_poly_auto_np", False, True), ("_stats_poly_csd_np", True, True)]
+    for rep in range(ctx.scale(6, 40)):
+        N = int(rng.integers(40, 300))
+        L = int(rng.integers(1, min(N, 64) + 1))
+        mode = ["generic", "backtoback", "single", "repeated"][rep % 4]
+        if mode == "backtoback":
+            starts = np.arange(0, N - L + 1, L, dtype=np.int64)
+        elif mode == "single":
+            starts = np.array([int(rng.integers(0, N - L + 1))], dtype=np.int64)
+        elif mode == "repeated":
+            s0 = int(rng.integers(0, N - L + 1)); starts = np.array([s0, s0, 0], dtype=np.int64)
+        else:
+            starts = rng.integers(0, N - L + 1, size=int(rng.integers(1, 9))).astype(np.int64)
+        x1 = np.ascontiguousarray(rng.standard_normal(N) + 3.0)
+        x2 = np.ascontiguousarray(rng.standard_normal(N) - 7.0 + 0.01 * np.arange(N))
+        if rep % 5 == 0:
+            x1[int(rng.integers(0, N))] = np.nan      # kernels sanitise gathered copies; the record must keep its NaN
+        w = np.ascontiguousarray(rng.uniform(0.1, 1.0, L))
+        omega = float(rng.uniform(0, np.pi))
+        order = int(rng.integers(1, 3))
+        Q = np.ascontiguousarray(K._build_Q(L, order))
+        for nm, cross, poly in names:
+            args = [x1] + ([x2] if cross else []) + [starts, L, w, omega] + ([Q] if poly else [])
+            held = [a for a in args if isinstance(a, np.ndarray)]
+            snaps = [a.tobytes() for a in held]
+            with warnings.catch_warnings():
+                warnings.simplefilter("ignore")
+                getattr(K, nm)(*args)
+            P.cases += 1
+            P.hit("kheap_kernel_" + mode)
+            if L > 1 and len(starts) >= 1:
+                P.nontrivial.add(("kheap", nm, mode, L > 8))
+            for a, sn, lab in zip(held, snaps, (["x1"] + (["x2"] if cross else []) + ["starts", "w"] + (["Q"] if poly else []))):
+                if a.tobytes() != sn:
+                    P.disagreements.append({"op": "kheap-kernel", "kernel": nm, "buffer": lab, "N": N, "L": L, "starts": starts.tolist(), "mode": mode,
+                                            "error": "the real kernel modified an array it was handed, which np_kernels_write_no_caller_buffer excludes "
+                                                     "for the op list generated from its source"})
+
+
 def correspondence(ctx) -> C.Part:
     """(a) Model.heapStep aliasing rules over the generated constructor ops vs np.shares_memory / byte comparison on the real constructor;
        (b) generated Lean attribute table (Float, driver) vs the real SpectrumResult.__getattr__ incl. degenerate (zero) bins"""
     P = C.Part()
     quiet()
     heap_correspondence(ctx, P)
+    kheap_correspondence(ctx, P)
     _an.attr_correspondence(ctx, P, DENS + ERRS, ctx.scale(30, 300))
     return P
 
